@@ -144,6 +144,39 @@ def zero_tail_cases(g, n):
     return out
 
 
+def same_content_cases(g, n):
+    """the SAME multi-chunk content held by several types that differ in a limit only (byte lists, bit lists, lists of
+    small integers; integers above 2**64 as uint128 and uint256), one after the other in the same process, alone and as a
+    container field"""
+    r = g.rng
+    out = []
+    for _ in range(n):
+        c = r.randrange(4)
+        lims = r.sample([64, 100, 128, 1000, 2048, 2**20], 3)
+        if c == 0:
+            nb = r.choice([33, 40, 64])
+            v = 'x' + bytes(r.getrandbits(8) for _ in range(nb)).hex()
+            ts = [['Bl', l] for l in lims]
+        elif c == 1:
+            nb = r.choice([257, 300, 512])
+            v = g.bits(nb)
+            ts = [['bl', l * 8] for l in lims]
+        elif c == 2:
+            e = r.choice(['u8', 'u16', 'bool'])
+            v = ['s'] + [g.val(e, 1) for _ in range(r.choice([33, 40, 64]))]
+            ts = [['list', e, l] for l in lims]
+        else:
+            v = str(r.randrange(1 << 64, 1 << 128))
+            ts = ['u128', 'u256', 'u128']
+        wrap = r.random()
+        for t in ts:
+            if wrap < 0.3:
+                out.append(show(['val', ['cont', 'u8', t], ['s', '1', v]]))
+            else:
+                out.append(show(['val', t, v]))
+    return out
+
+
 class ValProp(Prop):
     """properties checked on (type, value) cases"""
 
@@ -155,6 +188,7 @@ class ValProp(Prop):
         for t, v in zero_tail_cases(g, max(16, self.n(tier) // 20)):
             out.append(show(['val', t, v]))
         out += chunk_exact_cases(g, max(24, self.n(tier) // 12))
+        out += same_content_cases(g, max(6, self.n(tier) // 40))
         return out
 
 
@@ -244,8 +278,9 @@ def alike_families(g, n, outer_kinds=('vec', 'list')):
         cnt = r.choice([1, 2, 3, 4, 5])
         ok = r.choice(outer_kinds)
         fam = []
+        ik = r.choice(['Bv', 'Bl', 'bl', 'bv'])
         for sz in sizes:
-            e = ['cont', 'u8', ['Bv', sz]] if k == 'cont' else [k, sz]
+            e = ['cont', 'u8', [ik, sz]] if k == 'cont' else [k, sz]
             fam.append([ok, e, cnt])
         fams.append(fam)
     return fams
@@ -407,6 +442,7 @@ class C01(ValProp):
             t = nested_ty(g, r.choice([1, 2, 2]))
             v = g.val(t, 8)
             out.append(show(['store', t, v] + StoreGen(g, t, v).history(r.choice([6, 15]))))
+        out += stale_cases(g, max(8, n // 20))
         return out
 
     def compare(self, case, py, mo, stats):
@@ -491,12 +527,20 @@ class C02(ValProp):
             mv = g.max_val(t)
             if mv is not None and r.random() < 0.3:
                 out.append(show(['val', t, mv]))
+        for _ in range(self.n(tier) // 8):
+            t = nested_ty(g, r.choice([1, 2, 2]))
+            v = g.val(t, 8)
+            out.append(show(['store', t, v] + StoreGen(g, t, v).history(r.choice([6, 15]))))
         return out
     rule = ('random (type, value) cases; encode_bytes, bytes(), serialize(stream) after a 3-byte prefix (content, '
             'return value, tell) against Spec.serialize; non-trivial/distinct as C01')
 
     def compare(self, case, py, mo, stats):
         out = []
+        if case[0] == 'store':
+            # the encoding (and root) of every held view after every step of a history of mutations through child views
+            bump(stats, 'kinds', 'store:' + kind(case[1]))
+            return StoreProp.compare_store(self, case, py, mo, stats, 'views')
         self.note_tv(stats, case[1], case[2])
         if py.get('p.ctor') != 'ok':
             return [F('prop', 'ctor', py.get('p.ctor'), 'valid value must be constructible')]
@@ -818,6 +862,7 @@ class C14(HistProp):
             v = g.val(t, 12)
             sg = StoreGen(g, t, v)
             out.append(show(['store', t, v] + sg.history(r.choice([6, 15, 30]), 0.35)))
+        out += stale_cases(g, max(10, self.n(tier) // 8))
         # construction: every spelling of the constructor arguments, valid and invalid values
         for _ in range(self.n(tier) * 3):
             if g.rng.random() < 0.35:
@@ -925,6 +970,14 @@ class DecProp(Prop):
             tvs.append((['bl', 4 * lim + 64], g.bits(k), ['bl', lim]))
         for t, v in zero_tail_cases(g, max(6, self.n(tier) // 40)):
             tvs.append((t, v, t))
+        # families of types that print alike (same class names, same field names; they differ in a length / limit that
+        # the printed name does not show): a full value of the roomiest member, decoded with every member in turn
+        for fam in alike_families(g, max(4, self.n(tier) // 60)):
+            big = max(fam, key=lambda q: q[1][1] if q[1][0] != 'cont' else q[1][2][1])
+            vbig = g.max_val(big) or g.val(big, 4)
+            for t in fam:
+                tvs.append((big, vbig, t))
+                tvs.append((t, g.max_val(t) or g.val(t, 4), t))
         p = subprocess.run([DRV], input='\n'.join(show(['val', t, v]) for t, v, _ in tvs) + '\n',
                            capture_output=True, text=True, timeout=300)
         encs = []
@@ -983,6 +1036,20 @@ class DecProp(Prop):
                     b2 = bytearray(enc)
                     b2[i_:i_ + 4] = o_.to_bytes(4, 'little')
                     out.append(show(['dec', t, 'x', 'x' + bytes(b2).hex(), 'x']))
+        # union selectors with the high bit set (128 + a valid selector): top level, as a field, as an element
+        for _ in range(6):
+            opts = [r.choice(['u8', 'u16', ['list', 'u8', 4], ['Bv', 2], ['cont', 'u8', 'u8']]) for _ in range(r.choice([1, 2, 3]))]
+            u = ['union'] + (['none'] if r.random() < 0.5 else []) + opts
+            sel = r.randrange(len(u) - 1)
+            uv = ['u', sel, 'none' if u[1 + sel] == 'none' else g.val(u[1 + sel], 3)]
+            for t, v, pos in ((u, uv, 0), (['cont', 'u8', u], ['s', '5', uv], 5), (['list', u, 3], ['s', uv], 4)):
+                q = model_query(show(['val', t, v]))
+                if q.get('wt') != '1' or 's.bytes' not in q:
+                    continue
+                enc = bytearray(bytes.fromhex(q['s.bytes']))
+                if pos < len(enc):
+                    enc[pos] |= 0x80
+                    out.append(show(['dec', t, 'x', 'x' + bytes(enc).hex(), 'x']))
         # a REJECTED bit field of more than 32 bytes, then valid decodes of other bit fields (nothing may be left behind)
         for _ in range(3):
             nb = r.choice([300, 516, 600, 1020])
@@ -1093,6 +1160,8 @@ class C09(DecProp):
         out = []
         ok = self.common(case, py, mo, stats)
         out += self.work(case, py, mo, stats)
+        if py.get('p.redec') not in (None, '1'):
+            out.append(F('prop', 'the same input decoded again, after the first result was mutated, gives another value', py.get('p.redec'), py.get('p.dec')))
         # decode_bytes (for the bare integer types: the lenient bytes-to-integer helper): whatever it
         # returns must satisfy the invariants of the type
         d0 = py.get('p.decb0')
@@ -1140,6 +1209,8 @@ class C10(DecProp):
     def compare(self, case, py, mo, stats):
         out = []
         ok = self.common(case, py, mo, stats)
+        if py.get('p.redec') not in (None, '1'):
+            out.append(F('prop', 'the same input decoded again, after the first result was mutated, gives a value whose encoding is not the input', py.get('p.redec'), py.get('p.dec')))
         body = case[3][1:]
         if ok:
             if py.get('p.bytes') != body:
@@ -1240,10 +1311,23 @@ class C11(Prop):
             if isinstance(z, list) and isinstance(v, list) and len(z) == len(v) and len(v) > 2 and v[0] == 's' and z[0] == 's':
                 # some positions default, the others not
                 out.append(show(['val', t, [v[0]] + [zi if r.random() < 0.5 else vi for zi, vi in zip(z[1:], v[1:])]]))
+        # the reported length of every held view after every step of a history of mutations through child views
+        for _ in range(self.n(tier) // 10):
+            t = nested_ty(g, r.choice([1, 2, 2]))
+            v = g.val(t, 8)
+            out.append(show(['store', t, v] + StoreGen(g, t, v).history(r.choice([6, 15]))))
         return out
 
     def compare(self, case, py, mo, stats):
         out = []
+        if case[0] == 'store':
+            bump(stats, 'kinds', 'store:' + kind(case[1]))
+            for i, op in enumerate(case[3:]):
+                fl = py.get('%d.vbl' % i)
+                if fl is not None and set(fl) - {'1'}:
+                    out.append(F('prop', 'value_byte_length() of a held view differs from the length of its encoding after op %d %s (one flag per held view)' % (i, show(op)), fl, 'all 1'))
+                    break
+            return out + [f for f in StoreProp.compare_store(self, case, py, mo, None, 'views') if f['cls'] != 'prop']
         if case[0] in ('type', 'tsize'):
             bump(stats, 'kinds', 'type:' + kind(case[1]))
             if py.get('p.fixed') != mo['fixed']:
@@ -1287,6 +1371,12 @@ class C12(Prop):
             wrapt = g.rng.choice([bvt, ['cont', 'u8', bvt], ['vec', bvt, 2], ['union', bvt, 'u8']])
             out.append(show(['type', wrapt]))
             out.append(show(['type', bvt]))
+        # vectors far too long to be read completely (lengths around 2**53 and beyond, where floating point arithmetic
+        # rounds): the default tree is navigable at the first, middle and last element
+        for _ in range(max(6, self.n(tier) // 20)):
+            e = g.rng.choice(['u8', 'u16', 'u64', 'u256', 'bool', ['Bv', 3], ['cont', 'u8', 'u64'], 'u128'])
+            big = g.rng.choice([2**53, 2**56, 2**58, 2**60, 2**62, 2**40]) * g.rng.choice([1, 1, 32, 4]) + g.rng.choice([0, 1, 1, 3, 7, 9, 33, -1])
+            out.append(show(['tnav', ['vec', e, big]]))
         # the default of T requested AFTER sequences of T holding non-default data were serialised / iterated / exported
         r = g.rng
         for _ in range(self.n(tier) // 10):
@@ -1312,6 +1402,12 @@ class C12(Prop):
 
     def compare(self, case, py, mo, stats):
         out = []
+        if case[0] == 'tnav':
+            bump(stats, 'kinds', 'huge-vec:' + kind(case[1][1]))
+            fl = py.get('p.tnav')
+            if fl is None or set(fl) - {'1'}:
+                out.append(F('prop', 'the default tree of a very long vector is not navigable at its first / middle / last element positions (or holds something else than the element default there)', fl, 'all 1'))
+            return out
         if case[0] == 'type':
             bump(stats, 'kinds', kind(case[1]))
             exp = '%s/%s/%s/%s' % (mo['s.zroot'], mo['s.zbytes'], mo['s.zval'], mo['s.zroot'])
@@ -1614,6 +1710,8 @@ class C15(ValProp):
             out.append(F('prop', '==, !=, hash of equal values', py.get('p.eq'), '111'))
         if 'p.eqfresh' in py and set(py['p.eqfresh']) - {'1'}:
             out.append(F('prop', '==, !=, hash(), set membership against an equal value whose type expression was evaluated separately', py['p.eqfresh'], '1111'))
+        if py.get('p.roiter2') not in (None, '1'):
+            out.append(F('prop', 'two read-only iterations alive at once (one element apart) do not each yield their own elements', py.get('p.roiter2'), '1'))
         if 'p.seqmixin' in py and set(py['p.seqmixin']) - {'1'}:
             out.append(F('prop', 'reversed() / in / index() / count() disagree with indexing', py['p.seqmixin'], 'all 1'))
         if 'p.slices' in py and set(py['p.slices']) - {'1'}:
@@ -2053,6 +2151,43 @@ class C08(Prop):
         return out
 
 
+def stale_cases(g, n):
+    """store histories in which a held view's position stops existing (the last element of a list is popped, the union
+    is changed to another option) and the view is written afterwards: the write must raise and change nothing — neither
+    the enclosing views nor the view itself; then the position comes back (append / change back) and the view works again"""
+    r = g.rng
+    out = []
+    for _ in range(n):
+        inner = r.choice([['cont', 'u8', 'u16'], ['list', 'u16', 5], ['vec', 'u8', 3], ['bl', 10], ['cont', ['list', 'u8', 4], 'u8']])
+        if r.random() < 0.5:
+            ln = r.choice([1, 2, 3, 4, 5, 6])
+            t = ['list', inner, r.choice([ln, ln + 1, 8, 9])]
+            v = ['s'] + [g.val(inner, 3) for _ in range(ln)]
+            write = StoreGen(g, inner, v[-1]).one_op(dict(t=inner, v=v[-1], hook=None, kids=False))
+            if write is None or write[0] == 'sets':
+                continue
+            ops = [['child', 0, ln - 1], ['mut', 0, ['pop']], ['bad', 1, write], ['snap', 0], ['bad', 1, write],
+                   ['mut', 0, ['app', g.val(inner, 3)]], ['mut', 1, write]]
+        else:
+            other = r.choice(['u8', ['list', 'u8', 3], ['cont', 'u16'], inner])
+            t = ['union', inner, other] if r.random() < 0.5 else ['union', 'none', inner, other]
+            sel = len(t) - 3
+            v = ['u', sel, g.val(inner, 3)]
+            write = StoreGen(g, inner, v[2]).one_op(dict(t=inner, v=v[2], hook=None, kids=False))
+            if write is None or write[0] == 'sets':
+                continue
+            ops = [['child', 0, 0], ['mut', 0, ['chg', sel + 1, g.val(other, 3)]], ['bad', 1, write], ['snap', 0], ['bad', 1, write],
+                   ['mut', 0, ['chg', sel, g.val(inner, 3)]], ['mut', 1, write]]
+        w = r.random()
+        if w < 0.4:
+            # one level further down: the list / union is a field of a container that is the held root view
+            t0, v0 = ['cont', 'u8', t], ['s', '7', v]
+            ops = [['child', 0, 1]] + [[o[0], o[1] + 1] + o[2:] if o[0] != 'child' else ['child', o[1] + 1, o[2]] for o in ops]
+            t, v = t0, v0
+        out.append(show(['store', t, v] + ops))
+    return out
+
+
 class StoreProp(Prop):
     quick_n = 150
     thorough_n = 2500
@@ -2104,6 +2239,7 @@ class StoreProp(Prop):
             ops = sg.history(g.rng.choice([6, 15, 40] if tier == 'quick' else [6, 15, 40, 100]), self.p_bad, 0.06)
             # one in four histories runs LAZILY: nothing is hashed or read before the end
             out.append(show(['storel' if k % 3 == 2 or k % 10 in (5, 6) else 'store', t, v] + ops))
+        out += stale_cases(g, max(10, self.n(tier) // 10))
         return out
 
     def shrink_candidates(self, case):
@@ -2207,6 +2343,14 @@ class C19(HistProp):
             if t[0] == 'list' and len(v) < 2:
                 v = ['s', g.val(e, 20)]
             out.append(show(['hist', t, v, ['setv', i, g.max_val(e) or g.val(e, 60)], ['setv', i, g.val(e, 60)]]))
+        # the sequence type spelled a second time with a separately evaluated element class (same name, same fields): an
+        # already hashed view of THAT class is stored — only the path is hashed (`histf`: the second spelling is used)
+        for _ in range(self.n(tier) // 5):
+            e = ['cont', ['list', 'u64', 64], 'u8', ['vec', 'u16', 64], ['bl', 600]][:g.rng.choice([2, 3, 4])]
+            t = g.rng.choice([['list', e, 8], ['vec', e, 3], ['list', e, 1000]])
+            v = ['s'] + [g.val(e, 20) for _ in range(3 if t[0] == 'vec' else g.rng.choice([1, 2, 5]))]
+            i = g.rng.randrange(len(v) - 1)
+            out.append(show(['histf', t, v, ['seth', i, g.max_val(e) or g.val(e, 60)], ['seth', i, g.val(e, 60)], ['seth', 0, g.val(e, 60)]]))
         # mutations of views over lazily loaded backings: the untouched lazily loaded siblings stay the same objects
         r = g.rng
         for _ in range(self.n(tier) // 3):
@@ -2343,6 +2487,10 @@ class C17(Prop):
                     ops.append(['slice', r.randint(0, 40), r.randint(0, 40)])
                 if r.random() < 0.15 and kind(t) in ('list', 'vec', 'bl', 'bv'):
                     ops.append(['iterk', r.choice([0, 1, 1, 2, 3, 9, 40])])
+                if r.random() < 0.15 and kind(t) in ('list', 'vec', 'cont'):
+                    ck = [i for i in range(len(v) - 1) if kind(t[1 + i] if kind(t) == 'cont' else t[1]) in ('list', 'vec', 'cont', 'bl', 'bv', 'union')]
+                    if ck:
+                        ops.append(['childroot', r.choice(ck)])
                 ops.append(o)
             ops.append(r.choice([['read'], ['bytes'], ['root']]))
             out.append(show(['partial', t, v, pos] + ops))
@@ -2397,6 +2545,36 @@ class C17(Prop):
                                      ['elem', r.randint(0, n)], ['len'],
                                      ['iterk', r.choice([1, 2, r.randint(0, n), r.randint(0, n)])] if kind(t) in ('list', 'vec', 'bl', 'bv') else ['len']]))
             out.append(show(['partial', t, v, pos] + ops))
+        # composite fields / elements summarised AT THEIR OWN ROOT: obtaining the child view and asking for its root needs
+        # nothing below it; reading into it must fail
+        for _ in range(self.n(tier) // 6):
+            comp = lambda: r.choice([['list', 'u16', 9], ['list', ['cont', 'u8'], 4], ['bl', 300], ['bv', 300], ['cont', 'u8', ['list', 'u8', 4]],
+                                     ['vec', 'u64', 8], ['union', 'none', ['list', 'u8', 4]], ['list', ['list', 'u8', 3], 3]])
+            if r.random() < 0.5:
+                fs = [r.choice(['u8', 'u64']), comp(), comp()] + ([comp()] if r.random() < 0.5 else [])
+                r.shuffle(fs)
+                t = ['cont'] + fs
+                nk = len(fs)
+                base = 1 << _get_depth(nk)
+            else:
+                e = comp()
+                nk = r.choice([2, 3, 4])
+                if r.random() < 0.5:
+                    t = ['vec', e, nk]
+                    base = 1 << _get_depth(nk)
+                else:
+                    lim = r.choice([4, 5, 8])
+                    t = ['list', e, lim]
+                    base = 2 << _get_depth(lim)
+            v = g.val(t, 4)
+            if kind(t) == 'list':
+                v = ['s'] + [g.val(t[1], 3) for _ in range(nk)]
+            ck = [i for i in range(nk) if kind(t[1 + i] if kind(t) == 'cont' else t[1]) in ('list', 'vec', 'cont', 'bl', 'bv', 'union')]
+            if not ck:
+                continue
+            i = r.choice(ck)
+            ops = [['childroot', i], ['elem', i], ['childroot', r.choice(ck)], ['root'], ['sub', i, ['pop']] if False else ['len'], ['childroot', i]]
+            out.append(show(['partial', t, v, ['pos', base | i]] + ops))
         # size queries: containers with dynamic fields next to multi-chunk fixed-size fields, one field summarised
         for _ in range(self.n(tier) // 6):
             fx = lambda: r.choice([['Bv', 48], ['Bv', 96], ['vec', 'u64', 8], ['cont', 'u64', 'u64', 'u8'], 'u16', ['bv', 300], ['Bv', 32]])
